@@ -35,7 +35,9 @@ ASSUMPTIONS = [
     "hypothesis work <= extra_projected_mem (kernel working set) — not provable from the source; the measurement is its test",
     "fused tasks are modelled in the evaluation order peak_projected_mem describes (predecessors one after the other, results retained); "
     "the real fused function loads all leaves first and runs stream predecessors lazily inside the successor — measured only",
-    "measurement: tracemalloc sees Python-allocator and NumPy allocations, not raw malloc inside C codecs (so it can only under-count); "
+    "measurement: zarr is pinned to async.concurrency=1 and threading.max_workers=1 while measuring, so that the number of encoded/decoded "
+    "buffers alive at once does not depend on scheduling (a default-configured run holds at least as much); "
+    "tracemalloc sees Python-allocator and NumPy allocations, not raw malloc inside C codecs (so it can only under-count); "
     "a task counts as exceeding only if it does so in 5 consecutive runs (min is kept)",
 ]
 TRUSTED = ["tracemalloc / NumPy allocation tracking; zarr 3.x and numcodecs as installed (measured peaks depend on their versions)"]
@@ -378,6 +380,12 @@ def classify(r, o, twin):
             if k is not None and excess <= (t["peak"] - t["projected"]) + 2 * src_max + 2 * out_max + tol:
                 return k
             return None
+    if case["compressor"] == "default" and (twin is None or twin.get("error")):
+        # the differential run is not available: accept only the excess one compressed read and one compressed write explain
+        # (one further chunk-sized buffer per source chunk being read and per output chunk being written)
+        if excess <= src_max + out_max + tol:
+            return "compressed-chunk-extra-buffer"
+        return None
     # (3) fused op that reads a stream: predecessors run lazily inside the successor's function
     if d.get("fused") and keys["streams"]:
         if excess <= 2 * src_max + out_max + tol:
@@ -437,6 +445,12 @@ def measure(ctx, cases):
     if need:
         tw = memtrace.run_cases([dict(results[i]["case"], compressor="none") for i in need], W)
         twins = dict(zip(need, tw))
+        for i in need:          # a twin that could not be run (resources on a loaded machine): once more, in this process
+            if twins[i].get("error"):
+                ctx.dist["oracle:twin-error"] += 1
+                if len(ctx.notes) < 12:
+                    ctx.notes.append("twin (compressor none) of %s could not be run: %s" % (results[i]["case"]["op"], twins[i]["error"][:160]))
+                twins[i] = memtrace.run_case(dict(results[i]["case"], compressor="none"))
     evaluate(ctx, results, twins)
     return results
 
